@@ -18,7 +18,7 @@ A *session* is a list of function signatures, one length configuration and
                 (fake Exec; the path is the real Path, branches are made by the real Path.branch);
   mode "cheat": the real cheatcodes.create_calldata_generic on a hand-made build output with these
                 functions (some view), then for every produced calldata a real SEVM run of
-                PUSH2 <offset> CALLDATALOAD STOP at the length word of each dynamic parameter, on a
+                PUSH4 <offset> CALLDATALOAD STOP at the length word of each dynamic parameter, on a
                 path extending the cheatcode caller's.
 Both are compared with the specification (one successor per configured candidate, condition
 symbol == candidate, candidate pushed; the constant once fixed) and with the extracted Coq model
@@ -442,7 +442,7 @@ def _impl_cheat(sess):
             # the call made with this calldata continues the path of the cheatcode caller
             path = Path(mk_solver(args))
             path.extend_path(test_ex.path)
-            ex = mk_ex("61%04x35" % off + "00", calldata, path)  # PUSH2 off CALLDATALOAD STOP
+            ex = mk_ex("63%08x35" % off + "00", calldata, path)  # PUSH4 off CALLDATALOAD STOP
             try:
                 brs = []
                 for e in sevm.run(ex):
